@@ -123,12 +123,6 @@ Definition cldr_arith (c : cldr_ops) : Prop :=
   (c_w c = 0 \/ c_t c mod 10 <> 0).
 
 (* ---------- numbers as the model holds them, read as signed decimals ---------- *)
-Definition fval_abs_dec (v : fval) : option dec :=
-  match v with
-  | FDec _ i f => Some (dval (i ++ f), N.of_nat (length f))
-  | _ => None
-  end.
-
 (* the model value v is the number  (-1)^neg * d *)
 Definition fval_is (v : fval) (neg : bool) (d : dec) : Prop :=
   match v with
@@ -245,8 +239,17 @@ Definition selected (sel : fnumber) (ops : operands) (variants : list variant) :
   end.
 End Select.
 
+(* a number of the model whose digit strings are digit strings (what a float parser returns, what a literal is) *)
+Definition fval_digits (v : fval) : bool :=
+  match v with FDec _ i f => forallb dig i && forallb dig f | _ => true end.
+Definition value_digits (v : fvalue) : bool := match v with VNumber n => fval_digits (n_value n) | _ => true end.
+
 (* the memoizer holds only rules objects built by `rules` *)
 Definition cache_ok (rules : ntype -> operands -> pcat) (c : intl_cache) : Prop :=
   forall ty r, cache_find c ty = Some r -> r = rules ty.
 Definition cache_extends (c c' : intl_cache) : Prop :=
   forall ty r, cache_find c ty = Some r -> cache_find c' ty = Some r.
+
+(* the scope after a key test: unchanged except for the memoizer, which only grows and holds only `rules ty` *)
+Definition cache_step (rules : ntype -> operands -> pcat) (sc sc' : scope) : Prop :=
+  sc' = set_intls sc (sc_intls sc') /\ cache_ok rules (sc_intls sc') /\ cache_extends (sc_intls sc) (sc_intls sc').
